@@ -620,6 +620,9 @@ func nativeReplay(files []harnessFile, pkgDir string, replayFiles []string) []st
 		switch {
 		case strings.Contains(s, "VERIF-ASSERT-FAIL "+rec.Obligation+"\n"):
 			out[i] = "confirmed"
+		case strings.Contains(rec.Obligation, "nopanic") && strings.Contains(s, "panic:") && strings.Contains(s, "goroutine "):
+			// the native process itself died from a panic (e.g. in a goroutine the server spawned)
+			out[i] = "confirmed"
 		case strings.Contains(s, "skipped=true"):
 			out[i] = "skipped(assume)"
 		case strings.Contains(s, "VERIF-REPLAY"):
